@@ -131,6 +131,7 @@ structure DMon where
   sig : Nat → Bool := fun _ => false          -- a token is pending on the group's channel
   outstanding : Nat := 0
   fifo : List Nat := []                       -- what the `Queue` value must hold
+  held : Nat → Held := fun _ => .none         -- the channels the client keeps (fetched with `NotifyResult`, not yet given up)
   -- history (ghost): never read by a check
   finished : Nat → List Nat := fun _ => []
   delivered : Nat → List Nat := fun _ => []
@@ -149,7 +150,9 @@ def dmonStep (workers : Nat) (m : DMon) : DOp → DOut → Except String DMon
                    outstanding := m.outstanding - 1, finished := setAt m.finished g (m.finished g ++ [v]) }
     else .error "more job functions ran at once than workers configured"
   | .remove g, .unit =>
-    .ok { m with owed := setAt m.owed g [], sig := setAt m.sig g false, wiped := setAt m.wiped g (m.wiped g ++ m.owed g) }
+    .ok { m with owed := setAt m.owed g [], sig := setAt m.sig g false, wiped := setAt m.wiped g (m.wiped g ++ m.owed g),
+                 -- the channel kept for `g` (and for NO other group) is cut off, with the token it holds
+                 held := setAt m.held g ((m.held g).cutOff (m.sig g)) }
   | .results g, .vals l =>
     if l = m.owed g then
       .ok { m with owed := setAt m.owed g [], delivered := setAt m.delivered g (m.delivered g ++ l) }
@@ -163,6 +166,19 @@ def dmonStep (workers : Nat) (m : DMon) : DOp → DOut → Except String DMon
     else .error "Queue.Pop did not return the oldest value (or an error exactly on the empty queue)"
   | .qLen, .len n =>
     if n = m.fifo.length then .ok m else .error "Queue.Len is not the number of values added and not popped"
+  | .watch g, .unit => .ok { m with held := setAt m.held g .attached }
+  -- a reader parked on the channel it fetched earlier: as long as ITS group was not removed, every result
+  -- stored for the group since the last wake-up has left a token on that very channel
+  | .pollHeld g, .token b =>
+    match m.held g with
+    | .none =>
+      if b = false then .ok m else .error "a token was received on a channel that was never fetched"
+    | .attached =>
+      if b = m.sig g then .ok { m with sig := setAt m.sig g false }
+      else .error "a reader waiting on the channel it fetched for its group was not woken by a stored result (or woken without one) although the group was not removed"
+    | .detached t =>
+      if b = t then .ok { m with held := setAt m.held g (.detached false) }
+      else .error "the channel of a removed group did not keep exactly the token it held"
   | _, _ => .error "a call had an outcome of the wrong kind (accepted / refused / error)"
 
 def dmonRun (workers : Nat) : DMon → List DOp → List DOut → Except String DMon
